@@ -120,6 +120,42 @@ def write_json(path, obj):
     os.replace(tmp, path)
 
 
+def load_corpus(pid):
+    """minimised past failures and hand-picked seeds: corpus/<id>.txt, one case per line, optional `cfg | ` prefixes
+    separated by ` || ` before the case"""
+    path = os.path.join(VERIF, "corpus", pid + ".txt")
+    out = []
+    if os.path.exists(path):
+        for line in open(path):
+            line = line.rstrip("\n")
+            if not line or line.startswith("#"):
+                continue
+            cfgs = None
+            if " || " in line:
+                c, line = line.split(" || ", 1)
+                cfgs = [x.strip() for x in c.split(",")]
+            out.append(Case(line, tag="corpus", cfgs=cfgs))
+    return out
+
+
+def shrink_script(line, still_fails, max_rounds=60):
+    """greedy one-op-at-a-time reduction of a `K head ; op ; op …` script; still_fails(list of lines) -> list of bool"""
+    if " ; " not in line:
+        return line
+    parts = line.split(" ; ")
+    head, ops = parts[0], parts[1:]
+    for _ in range(max_rounds):
+        if len(ops) <= 1:
+            break
+        cands = [" ; ".join([head] + ops[:i] + ops[i + 1:]) for i in range(len(ops))]
+        res = still_fails(cands)
+        hit = next((i for i, r in enumerate(res) if r), None)
+        if hit is None:
+            break
+        ops = ops[:hit] + ops[hit + 1:]
+    return " ; ".join([head] + ops)
+
+
 def load_known():
     p = os.path.join(VERIF, "known_findings.json")
     if not os.path.exists(p):
@@ -142,7 +178,8 @@ def run_check(prop, tier, seed, replay=None):
     res = Result()
     replay_dir = os.path.join(VERIF, "replays")
     os.makedirs(replay_dir, exist_ok=True)
-    for old in os.listdir(replay_dir):
+    replay_data = json.load(open(replay)) if replay else None
+    for old in ([] if replay else os.listdir(replay_dir)):
         if old.startswith(pid + "-"):
             try:
                 os.remove(os.path.join(replay_dir, old))
@@ -224,7 +261,9 @@ def run_check(prop, tier, seed, replay=None):
         leanchecker = lc
 
     # ---- 4. correspondence: executor ∥ driver on the same lines
-    cases = prop.cases(tier, rng) if replay is None else [Case(l) for l in json.load(open(replay)).get("lines", [])]
+    cases = prop.cases(tier, rng) if replay is None else [Case(l, cfgs=replay_data.get("cfgs")) for l in replay_data.get("lines", [])]
+    if replay is None:
+        cases = load_corpus(pid) + cases
     lines = [c.line for c in cases]
     disagreements = []
     real = model = None
@@ -313,7 +352,25 @@ def run_check(prop, tier, seed, replay=None):
             res.suppressed += 1
             continue
         path = os.path.join(replay_dir, "%s-%s.json" % (pid, hashlib.sha256(oline.encode()).hexdigest()[:10]))
-        write_json(path, {"property": pid, "kind": "oracle", "signature": sig, "lines": [cases[i].line],
+        cfg = oline[1:].split(" | ")[0] if " | " in oline.split(" # ")[0] else ""
+        minimal = cases[i].line
+
+        def still_fails(cands, cfg=cfg, sig=sig, i=i):
+            rcx, rx, ex = build.run_lines(exe, cands)
+            if rcx != 0 or len(rx) != len(cands):
+                return [False] * len(cands)
+            ol = ["O" + (cfg + " | " if cfg else "") + c + " # " + a for c, a in zip(cands, rx)]
+            rcy, vy, ey = build.run_lines(driver, ol)
+            if rcy != 0 or len(vy) != len(ol):
+                return [False] * len(cands)
+            return [(vv != "ok" and prop.verdict_concerns(vv) and prop.signature(Case(c), vv).split(":")[0] == sig.split(":")[0]) for c, vv in zip(cands, vy)]
+        try:
+            if len(res.violations) < 3:
+                minimal = shrink_script(cases[i].line, still_fails)
+        except Exception:
+            minimal = cases[i].line
+        write_json(path, {"property": pid, "kind": "oracle", "signature": sig, "lines": [minimal], "cfgs": [cfg] if cfg else None,
+                          "original_line": cases[i].line if minimal != cases[i].line else None,
                           "oracle_line": oline, "verdict": v, "real": real[i],
                           "model": model[i] if model else None})
         res.violations.append((path, ""))
@@ -326,6 +383,36 @@ def run_check(prop, tier, seed, replay=None):
             if i in failing_idx:
                 continue
             unexplained.append(i)
+    widened = 0
+    if (broken or unexplained) and not new_oracle_violation and exe is not None and driver is not None and replay is None:
+        # the property is no longer shown to hold: look harder for a concrete failing input on the real code
+        for extra in range(1, 5):
+            rng2 = random.Random(((seed + 7919 * extra) * 1000003) ^ int(hashlib.sha256(pid.encode()).hexdigest()[:8], 16))
+            more = [c for c in prop.cases("quick", rng2) if c.oracle]
+            if not more:
+                break
+            rcw, realw, errw = build.run_lines(exe, [c.line for c in more])
+            if rcw != 0 or len(realw) != len(more):
+                break
+            ol, oi = [], []
+            for k, c in enumerate(more):
+                for cfgx in (c.cfgs or [""]):
+                    ol.append("O" + (cfgx + " | " if cfgx else "") + c.line + " # " + realw[k])
+                    oi.append(k)
+            rcv, vw, ev_ = build.run_lines(driver, ol)
+            widened += len(ol)
+            if rcv != 0 or len(vw) != len(ol):
+                break
+            hit = next((j for j, vv in enumerate(vw) if vv != "ok" and prop.verdict_concerns(vv)
+                        and prop.signature(more[oi[j]], vv) not in known_active), None)
+            if hit is not None:
+                path = os.path.join(replay_dir, "%s-widened-%s.json" % (pid, hashlib.sha256(ol[hit].encode()).hexdigest()[:10]))
+                cfgx = ol[hit][1:].split(" | ")[0] if " | " in ol[hit].split(" # ")[0] else ""
+                write_json(path, {"property": pid, "kind": "oracle-widened-search", "lines": [more[oi[hit]].line], "cfgs": [cfgx] if cfgx else None,
+                                  "oracle_line": ol[hit], "verdict": vw[hit], "real": realw[oi[hit]], "broken": broken})
+                res.violations.append((path, ""))
+                new_oracle_violation = True
+                break
     if (broken or unexplained) and not new_oracle_violation:
         path = os.path.join(replay_dir, "%s-unproved.json" % pid)
         detail = {"property": pid, "kind": "unproved", "broken": broken}
@@ -380,6 +467,7 @@ def run_check(prop, tier, seed, replay=None):
                                "executor": "harness/exec.cpp linked against /repo working tree, ASan+UBSan",
                                "tie_ok": tie_ok and not any(b["kind"] in ("translator", "harness") for b in broken)},
             "oracle_evaluations": oracle_runs,
+            "widened_search_oracle_evaluations": widened,
             "oracle_failures": len(oracle_fail),
             "known_findings_reproduced": len(res.known),
             "broken": [{"kind": b["kind"], "what": b["what"]} for b in broken],
@@ -390,7 +478,8 @@ def run_check(prop, tier, seed, replay=None):
         "wall_s": round(time.time() - t0, 2),
         "violations": len(res.violations),
     }
-    write_json(os.path.join(VERIF, "evidence", pid + ".json"), ev)
+    if replay is None:
+        write_json(os.path.join(VERIF, "evidence", pid + ".json"), ev)
     return res, ev
 
 
